@@ -60,6 +60,10 @@ CLAIMED["C06"] = ("Unbounded proof of the per-replica clauses over all histories
   "Trusted: the event loop delivers ExecuteEvent/AbortEvent in the order added (C14 covers the queue only), hash.Hash digest state not modelled (only that Write is called once per executed command), channel sends modelled as ghost trace records, mutex atomicity, Committer.TryCommit not verified (its callees are), views grow along parent links and SHA-256 collision resistance as stated preconditions. Not decided: cross-replica prefix relation (C01), markProposed.",
   "contract-based deductive verification: WP over go/ssa + SMT (govc), ghost traces", "DESIGN.md 7.2 C06")
 
+CLAIMED["C11"] = ("Unbounded proof, for every cache content, capacity and operation history of one Cache, of the soundness direction for Verify and Sign: the key the code builds is exactly sha256(message) . count-and-ids of the claimed signers . signature bytes (shape proved over an abstract byte-string model of strings.Builder / sha256.Sum256), insert is called only with a key whose (signature, message) the wrapped implementation has just accepted (or just produced), check reports a hit only for a key that is present, eviction only removes, so the object invariant 'every cached key was verified' holds after every operation and Verify returns nil only if the wrapped implementation accepts the same signature for the same message and claimed signers; a census shows insert is reached only from Sign/Verify/BatchVerify and the entry map is written nowhere else. Two genuine defects found while building this are fixed in /repo (batch digest discarded: a signature verified for one batch was accepted for any batch; signer labels missing from the key).",
+  "Trusted / assumed: key injectivity up to the verdict (axioms key_complete/key_sound: SHA-256 collision resistance, the fixed framing, and a verdict that depends only on claimed signers, signature bytes and message), writeSigners (closure through IDSet.ForEach) and evict (container/list) are trusted contracts, Base.Sign's own-signature-verifies, mutex atomicity. Not decided: BatchVerify's key (hash.Hash streaming digest and sorted map iteration are not modelled), completeness direction (an error is returned only if the wrapped implementation returned one), eviction never making a later verification fail, BLS.",
+  "contract-based deductive verification: WP over go/ssa + SMT (govc), abstract byte-string model", "DESIGN.md 7.2 C11")
+
 NA = {
  "C01": "cross-replica agreement over all schedules and Byzantine behaviours is a protocol-level inductive invariant over a distributed history; no contract on a function or object of one process can state it (DESIGN.md 3 C01)",
  "C05": "liveness / bounded progress under eventual synchrony is a property of whole executions of all replicas; partial-correctness contracts cannot state it (DESIGN.md 3 C05)",
